@@ -1,5 +1,6 @@
 import OxiddModel.Reorder.SwapStoreSeq
 import OxiddModel.Reorder.SwapStoreNeg
+import OxiddModel.Reorder.SwapStoreGarbage
 import OxiddModel.Reorder.SetOrderProof
 
 /-!
@@ -112,10 +113,9 @@ example : ∃ t', Denotes (levelDownS Heap.firstFree id sIte 0).h.abs (.inner 2)
 /-- **`swapS_removed`** (what the swap frees, and what it leaves). A node of the old lower level
 can only disappear if it has no external handle and no parent above the two levels; all other
 slots keep their ids (`levelDownS_live`). Conversely the code leaves no dangling edge and no
-mis-counted slot (`swapS_inv`); what it may leave at the new upper level are nodes of the old
-lower level whose reference count was already 0 on entry and that are not a child of any node of
-the old upper level (the loop only inspects children of rewritten nodes) — ordinary garbage for the
-next `gc`, as before the swap. -/
+mis-counted slot (`swapS_inv`), and by `swapS_no_new_garbage` the only unreferenced nodes it
+leaves at the new upper level are nodes of the old lower level whose reference count was already
+0 on entry — ordinary garbage for the next `gc`, as before the swap. -/
 theorem swapS_removed {ext : Nat → Nat} {s : SStore} {u : Nat} {al : Heap → Nat}
     {ord : List Nat → List Nat} (hal : AllocOK al) (hord : OrderOK ord) (hinv : Inv ext s)
     (hu : u + 1 < s.tables.length) {k : Nat} {m : Node} (hm : s.h.sh k = some m)
@@ -123,6 +123,43 @@ theorem swapS_removed {ext : Nat → Nat} {s : SStore} {u : Nat} {al : Heap → 
     ext k = 0 ∧ ∀ p n, s.h.sh p = some n → n.level ≠ u → n.level ≠ u + 1 →
       n.t ≠ .inner k ∧ n.e ≠ .inner k :=
   levelDownS_removed hal hord hinv hu hm hl hk
+
+/-- **`swapS_removed_iff`** (exactly which nodes the swap frees). A node of the old lower level
+leaves the store **iff** it has no external handle, no parent above the two levels and at least
+one parent at the old upper level — a condition on the entry store only, the same for every
+iteration order and allocator. -/
+theorem swapS_removed_iff {ext : Nat → Nat} {s : SStore} {u : Nat} {al : Heap → Nat}
+    {ord : List Nat → List Nat} (hal : AllocOK al) (hord : OrderOK ord) (hinv : Inv ext s)
+    (hu : u + 1 < s.tables.length) {k : Nat} {mk : Node} (hmk : s.h.sh k = some mk)
+    (hlv : mk.level = u + 1) :
+    k ∉ (levelDownS al ord s u).table u ↔
+      (ext k = 0 ∧
+       (∀ p n, s.h.sh p = some n → n.level ≠ u → n.level ≠ u + 1 →
+          n.t ≠ .inner k ∧ n.e ≠ .inner k) ∧
+       ∃ p ∈ s.table u, ∃ n, s.h.sh p = some n ∧ (n.t = .inner k ∨ n.e = .inner k)) :=
+  levelDownS_removed_iff hal hord hinv hu hmk hlv
+
+/-- **`swapS_no_new_garbage`.** No unreferenced leftover at the new upper level that the loop was
+supposed to remove: a node of the old lower level that is in the new upper table with
+`ref_count() == 0` (counter 1: only the table's reference) after `level_down` had
+`ref_count() == 0` before the swap. (Every node that *loses* its last reference during the swap is
+a child of a rewritten node and is removed by the orphan check of the iteration that drops the
+last edge.) -/
+theorem swapS_no_new_garbage {ext : Nat → Nat} {s : SStore} {u : Nat} {al : Heap → Nat}
+    {ord : List Nat → List Nat} (hal : AllocOK al) (hord : OrderOK ord) (hinv : Inv ext s)
+    (hu : u + 1 < s.tables.length) {k : Nat} {mk : Node} (hmk : s.h.sh k = some mk)
+    (hlv : mk.level = u + 1) (hk : k ∈ (levelDownS al ord s u).table u)
+    (hrc : (levelDownS al ord s u).h.rcOf k = 1) : s.h.rcOf k = 1 :=
+  levelDownS_no_new_garbage hal hord hinv hu hmk hlv hk hrc
+
+/-- a store with a dead node at level 1 (slot 0, counter 1) next to a live diagram at level 0 that
+does not use it: the dead node is garbage before and after the swap -/
+def sDead : SStore :=
+  ⟨⟨[some ⟨1, .term true, .term false, 1⟩, some ⟨0, .term true, .term false, 2⟩]⟩, [[1], [0], []]⟩
+
+example : Inv (extOf [0, 1]) sDead ∧ 0 ∈ (levelDownS Heap.firstFree id sDead 0).table 0 ∧
+    (levelDownS Heap.firstFree id sDead 0).h.rcOf 0 = 1 ∧ sDead.h.rcOf 0 = 1 :=
+  ⟨checkInv_sound (by decide), by decide, by decide, by decide⟩
 
 /-- non-vacuity: in `sAnd` (`x0 ∧ x1`, handle on the conjunction only) the node `x1` of the old
 lower level is orphaned by the swap and its slot is freed -/
@@ -135,17 +172,30 @@ table nor on the slot allocator: for any two choices both resulting stores satis
 and every externally referenced slot denotes the *same* diagram `swapTree u t` in both. Since both
 stores are duplicate free (`Inv.inj`), the parts reachable from the handles are isomorphic (the
 isomorphism is `i ↦ j` iff `i` and `j` denote the same diagram); only the ids of freshly
-allocated slots differ. -/
+allocated slots differ. Moreover the same nodes of the old lower level survive (so the same
+slots are freed), see `swapS_removed_iff`. -/
 theorem swapS_order_independent {ext : Nat → Nat} {s : SStore} {u : Nat}
     {al₁ al₂ : Heap → Nat} {ord₁ ord₂ : List Nat → List Nat}
     (hal₁ : AllocOK al₁) (hal₂ : AllocOK al₂) (hord₁ : OrderOK ord₁) (hord₂ : OrderOK ord₂)
     (hinv : Inv ext s) (hu : u + 1 < s.tables.length) :
     Inv ext (levelDownS al₁ ord₁ s u) ∧ Inv ext (levelDownS al₂ ord₂ s u) ∧
-    ∀ k t, 0 < ext k → Denotes s.h.abs (.inner k) t →
+    (∀ k t, 0 < ext k → Denotes s.h.abs (.inner k) t →
       Denotes (levelDownS al₁ ord₁ s u).h.abs (.inner k) (swapTree u t) ∧
-      Denotes (levelDownS al₂ ord₂ s u).h.abs (.inner k) (swapTree u t) :=
+      Denotes (levelDownS al₂ ord₂ s u).h.abs (.inner k) (swapTree u t)) ∧
+    (∀ k mk, s.h.sh k = some mk → mk.level = u + 1 →
+      (k ∈ (levelDownS al₁ ord₁ s u).table u ↔ k ∈ (levelDownS al₂ ord₂ s u).table u)) :=
   ⟨levelDownS_inv hal₁ hord₁ hinv hu, levelDownS_inv hal₂ hord₂ hinv hu, fun _ _ hk hd =>
-    ⟨levelDownS_handle hal₁ hord₁ hinv hu hk hd, levelDownS_handle hal₂ hord₂ hinv hu hk hd⟩⟩
+    ⟨levelDownS_handle hal₁ hord₁ hinv hu hk hd, levelDownS_handle hal₂ hord₂ hinv hu hk hd⟩,
+    fun k mk hmk hlv => by
+      have h1 := levelDownS_removed_iff hal₁ hord₁ hinv hu hmk hlv
+      have h2 := levelDownS_removed_iff hal₂ hord₂ hinv hu hmk hlv
+      constructor
+      · intro h
+        apply Classical.byContradiction
+        intro hc; exact (h1.mpr (h2.mp hc)) h
+      · intro h
+        apply Classical.byContradiction
+        intro hc; exact (h2.mpr (h1.mp hc)) h⟩
 
 /-- `g = x0 ∧ x1 ∧ x2` (slot 2) and `h = x0 ? x1 ∧ x2 : ⊤` (slot 3), handles on both: both entries
 of `old_upper` are rewritten and need different fresh nodes -/
@@ -341,11 +391,9 @@ theorem setVarOrderS_correct {ext : Nat → Nat} {s : SStore} {al : Heap → Nat
       htlt' _ hlj, ?_, ?_⟩
     · rw [hgetD _ hli, hgetD _ hlj]; exact hresp
     · rw [hspec.placed' htlt' htinj hli]
-      have := List.getElem_idxOf (List.idxOf_lt_length_of_mem hai)
-      simpa [List.getD_eq_getElem?_getD, List.getElem?_eq_getElem (List.idxOf_lt_length_of_mem hai)] using this
+      simp [List.getD_eq_getElem?_getD, List.getElem?_eq_getElem (List.idxOf_lt_length_of_mem hai)]
     · rw [hspec.placed' htlt' htinj hlj]
-      have := List.getElem_idxOf (List.idxOf_lt_length_of_mem haj)
-      simpa [List.getD_eq_getElem?_getD, List.getElem?_eq_getElem (List.idxOf_lt_length_of_mem haj)] using this
+      simp [List.getD_eq_getElem?_getD, List.getElem?_eq_getElem (List.idxOf_lt_length_of_mem haj)]
   · intro k t hk hd
     obtain ⟨nd, hnd'⟩ := Option.ne_none_iff_exists'.mp (hspec.inv.live_of_ext hk)
     obtain ⟨t', ht'⟩ := hspec.inv.total _ k nd hnd' (Nat.le_refl _)
